@@ -90,6 +90,41 @@ Proof.
   - apply Forall_concat_inv. eapply Forall_perm; [apply Permutation_sym; exact Hp|apply items_of_ok; exact Hm].
 Qed.
 
+(* ---- lemmas about seq_res ---- *)
+Lemma seq_res_ok f ps tl ls :
+  seq_res f ps tl = Ok ls ->
+  (forall p, In p ps -> exists lp, f p = Ok lp /\ incl lp ls) /\ incl tl ls /\
+  (forall (P : aleaf -> Prop), (forall p lp, In p ps -> f p = Ok lp -> Forall P lp) -> Forall P tl -> Forall P ls).
+Proof.
+  revert ls. induction ps as [|p ps IH]; intros ls H; cbn in H.
+  - inversion H; subst. split; [intros p []|split; [apply incl_refl|intros P _ Ht; exact Ht]].
+  - destruct (f p) as [l|] eqn:Ep; [|discriminate]. destruct (seq_res f ps tl) as [l'|] eqn:Er; [|discriminate].
+    inversion H; subst ls. destruct (IH l' eq_refl) as [I1 [I2 I3]]. split; [|split].
+    + intros q [E|Hq]; [subst q; exists l; split; [exact Ep|apply incl_appl, incl_refl]|].
+      destruct (I1 q Hq) as [lq [E1 E2]]. exists lq. split; [exact E1|apply incl_appr; exact E2].
+    + apply incl_appr. exact I2.
+    + intros P HP Ht. apply Forall_app. split; [apply (HP p l (or_introl eq_refl) Ep)|].
+      apply I3; [intros q lq Hq; apply HP; right; exact Hq|exact Ht].
+Qed.
+
+Lemma seq_res_oversize f ps tl : seq_res f ps tl = Oversize -> exists p, In p ps /\ f p = Oversize.
+Proof.
+  induction ps as [|p ps IH]; intros H; cbn in H; [discriminate|].
+  destruct (f p) as [l|] eqn:Ep; [|exists p; split; [left; reflexivity|exact Ep]].
+  destruct (seq_res f ps tl) as [l'|] eqn:Er; [discriminate|].
+  destruct (IH eq_refl) as [q [Hq Eq]]. exists q. split; [right; exact Hq|exact Eq].
+Qed.
+
+Lemma parts_items a R2 k g it p :
+  In p (components (filter has_cands (map (prune a R2 (S k)) g))) -> In it p ->
+  exists it0, In it0 g /\ it = prune a R2 (S k) it0.
+Proof.
+  intros Hp Hit. destruct (components_spec (filter has_cands (map (prune a R2 (S k)) g))) as [_ Hperm].
+  assert (Hin : In it (filter has_cands (map (prune a R2 (S k)) g))).
+  { eapply Permutation_in; [exact Hperm|]. apply in_concat. exists p. auto. }
+  apply filter_In in Hin. destruct Hin as [Hin _]. apply in_map_iff in Hin. destruct Hin as [it0 [E H0]]. exists it0. auto.
+Qed.
+
 (* ---- (b) every leaf only contains candidates within the range in force ---- *)
 Definition within (a : acfg) (R2 : Z) (k : nat) (it : item) : Prop :=
   Forall (fun dc : cand => snd dc * den a k <= R2 * num a k) (snd it).
@@ -101,6 +136,9 @@ Proof.
   unfold within, prune. cbn. rewrite Forall_forall. intros dc H. apply filter_In in H. destruct H as [_ H]. apply Z.leb_le. exact H.
 Qed.
 
+Lemma dropped_trivial (P : aleaf -> Prop) (l : list item) : (forall i, P (Dropped i)) -> Forall P (map (fun it : item => Dropped (fst it)) l).
+Proof. intros H. rewrite Forall_forall. intros x Hx. apply in_map_iff in Hx. destruct Hx as [y [E _]]. subst x. apply H. Qed.
+
 Theorem asplit_leaves_within a R2 : forall fuel k g ls,
   Forall (within a R2 k) g -> asplit fuel a R2 k g = Ok ls -> Forall (leaf_within a R2) ls.
 Proof.
@@ -109,17 +147,137 @@ Proof.
     destruct (at_stop a k); [discriminate|]. inversion H; subst. repeat constructor.
   - destruct (length g <=? a_max a)%nat; [inversion H; subst; repeat constructor; exact Hw|].
     destruct (at_stop a k); [discriminate|].
-    set (g' := map (prune a R2 (S k)) g) in *.
-    set (dropped := map (fun it : item => Dropped (fst it)) (filter (fun it => negb (has_cands it)) g')) in *.
-    assert (Hparts : Forall (Forall (within a R2 (S k))) (components (filter has_cands g'))).
-    { apply Forall_concat_inv. destruct (components_spec (filter has_cands g')) as [_ Hp].
-      eapply Forall_perm; [apply Permutation_sym; exact Hp|].
-      rewrite Forall_forall. intros it Hit. apply filter_In in Hit. destruct Hit as [Hit _].
-      unfold g' in Hit. apply in_map_iff in Hit. destruct Hit as [it0 [E _]]. subst it. apply prune_within. }
-    revert ls H. generalize (components (filter has_cands g')) Hparts. clear Hparts.
-    intros parts. induction 1 as [|p ps Hp _ IHps]; intros ls H.
-    + inversion H; subst. unfold dropped. rewrite Forall_forall. intros lf Hlf. apply in_map_iff in Hlf. destruct Hlf as [x [E _]]. subst lf. exact I.
-    + destruct (asplit fuel a R2 (S k) p) as [l|] eqn:El; [|discriminate].
-      match type of H with context [match ?X with _ => _ end] => destruct X as [l'|] eqn:Ego; [|discriminate] end.
-      inversion H; subst ls. apply Forall_app. split; [eapply IH; eassumption|apply IHps; reflexivity].
+    destruct (seq_res_ok _ _ _ _ H) as [_ [_ HP]]. apply HP.
+    + intros p lp Hp Ep. eapply IH; [|exact Ep].
+      rewrite Forall_forall. intros it Hit. destruct (parts_items _ _ _ _ _ _ Hp Hit) as [it0 [_ E]]. subst it. apply prune_within.
+    + apply dropped_trivial. intros i. exact I.
+Qed.
+
+(* ---- (c) each leaf is solved optimally with its reduced range as the cost of not linking ---- *)
+Definition real_item (it : item) : Prop :=
+  sorted (snd it) /\ Forall (fun dc : cand => 0 <= snd dc) (snd it) /\ Forall (fun dc => is_real dc = true) (snd it).
+
+Definition acfg_ok (a : acfg) : Prop := 0 < a_p a /\ 0 < a_q a.
+
+Lemma pow_pos_z b e : 0 < b -> 0 < Z.pow b (2 * Z.of_nat e).
+Proof. intros H. apply Z.pow_pos_nonneg; lia. Qed.
+
+Lemma sorted_filter (p : cand -> bool) l : sorted l -> sorted (filter p l).
+Proof.
+  induction 1 as [|dc l Hle _ IH]; cbn; [constructor|]. destruct (p dc); [|exact IH].
+  constructor; [|exact IH]. rewrite Forall_forall in *. intros x Hx. apply filter_In in Hx. apply Hle. tauto.
+Qed.
+
+Lemma Forall_filter {A} (P : A -> Prop) (p : A -> bool) l : Forall P l -> Forall P (filter p l).
+Proof. intros H. rewrite Forall_forall in *. intros x Hx. apply filter_In in Hx. apply H. tauto. Qed.
+
+Lemma prune_real a R2 k it : real_item it -> real_item (prune a R2 k it).
+Proof. intros [H1 [H2 H3]]. unfold real_item, prune. cbn. repeat split; [apply sorted_filter|apply Forall_filter|apply Forall_filter]; assumption. Qed.
+
+Lemma strip_null_real m it : geo_item m it -> metric_ok m -> real_item (strip_null it).
+Proof.
+  intros [sp [ds E]] Hm. unfold real_item, strip_null. cbn. rewrite E. repeat split.
+  - apply sorted_filter. apply cands_of_sorted.
+  - apply Forall_filter. apply cands_of_nonneg. exact Hm.
+  - rewrite Forall_forall. intros x Hx. apply filter_In in Hx. tauto.
+Qed.
+
+Lemma sorted_scale (f : Z) (l : list cand) : 0 < f -> sorted l -> sorted (map (fun dc : cand => (fst dc, snd dc * f)) l).
+Proof.
+  intros Hf. induction 1 as [|dc l Hle _ IH]; cbn; [constructor|]. constructor; [|exact IH].
+  rewrite Forall_forall in *. intros x Hx. apply in_map_iff in Hx. destruct Hx as [y [E Hy]]. subst x. cbn. specialize (Hle y Hy). nia.
+Qed.
+
+Lemma leaf_item_ok a R2 k it :
+  acfg_ok a -> 0 <= R2 -> real_item it -> within a R2 k it ->
+  item_ok (fst it, map (fun dc : cand => (fst dc, snd dc * den a k)) (snd it) ++ [(None, R2 * num a k)]).
+Proof.
+  intros [Hp Hq] HR [Hs [Hn Hr]] Hw. unfold item_ok. cbn [snd].
+  assert (Hden : 0 < den a k) by (apply pow_pos_z; exact Hq).
+  assert (Hnum : 0 < num a k) by (apply pow_pos_z; exact Hp).
+  split; [|split].
+  - apply sorted_app_last; [apply sorted_scale; assumption|].
+    rewrite Forall_forall. intros x Hx. apply in_map_iff in Hx. destruct Hx as [y [E Hy]]. subst x. cbn.
+    unfold within in Hw. rewrite Forall_forall in Hw. exact (Hw y Hy).
+  - apply Forall_app. split.
+    + rewrite Forall_forall in *. intros x Hx. apply in_map_iff in Hx. destruct Hx as [y [E Hy]]. subst x. cbn. specialize (Hn y Hy). nia.
+    + constructor; [cbn; nia|constructor].
+  - exists (R2 * num a k). apply in_or_app. right. left. reflexivity.
+Qed.
+
+Definition leaf_real (lf : aleaf) : Prop := match lf with Leaf _ g => Forall real_item g | _ => True end.
+
+Theorem asplit_leaves_real a R2 : forall fuel k g ls,
+  Forall real_item g -> asplit fuel a R2 k g = Ok ls -> Forall leaf_real ls.
+Proof.
+  induction fuel as [|fuel IH]; intros k g ls Hw H; cbn in H.
+  - destruct (length g <=? a_max a)%nat; [inversion H; subst; repeat constructor; exact Hw|].
+    destruct (at_stop a k); [discriminate|]. inversion H; subst. repeat constructor.
+  - destruct (length g <=? a_max a)%nat; [inversion H; subst; repeat constructor; exact Hw|].
+    destruct (at_stop a k); [discriminate|].
+    destruct (seq_res_ok _ _ _ _ H) as [_ [_ HP]]. apply HP.
+    + intros p lp Hp Ep. eapply IH; [|exact Ep].
+      rewrite Forall_forall. intros it Hit. destruct (parts_items _ _ _ _ _ _ Hp Hit) as [it0 [H0 E]]. subst it. apply prune_real.
+      rewrite Forall_forall in Hw. apply Hw. exact H0.
+    + apply dropped_trivial. intros i. exact I.
+Qed.
+
+(* Every sub-group is solved optimally, the cost of leaving a source unlinked being the
+   square of the reduced range in force for that sub-group. *)
+Theorem leaf_solved_optimally a R2 k g :
+  acfg_ok a -> 0 <= R2 -> Forall real_item g -> Forall (within a R2 k) g ->
+  exists pairs, solve_leaf a R2 (Leaf k g) = map strip pairs /\ is_opt (leaf_items a R2 k g) pairs.
+Proof.
+  intros Ha HR Hr Hw. unfold solve_leaf.
+  assert (Hok : Forall item_ok (leaf_items a R2 k g)).
+  { unfold leaf_items. rewrite Forall_forall. intros x Hx. apply in_map_iff in Hx. destruct Hx as [it [E Hit]]. subst x.
+    rewrite Forall_forall in Hr, Hw. apply leaf_item_ok; auto. }
+  assert (Hlen : length (leaf_items a R2 k g) = length g) by (unfold leaf_items; apply map_length).
+  destruct (solve_group_spec (length g) (leaf_items a R2 k g) Hok) as [Ho Hk].
+  destruct (solve_group (length g) (leaf_items a R2 k g)) as [l|] eqn:E.
+  - exact (Hk l eq_refl).
+  - exfalso. destruct Ho as [Ho _]. specialize (Ho eq_refl). lia.
+Qed.
+
+(* ---- (d) when the split gives up ---- *)
+(* groups met while splitting: the start group, and every part of an oversize group that
+   has not yet reached the stop *)
+Inductive reach (a : acfg) (R2 : Z) : nat -> group -> nat -> group -> Prop :=
+| reach_here k g : reach a R2 k g k g
+| reach_part k g p k' g' :
+    (a_max a < length g)%nat -> at_stop a k = false ->
+    In p (components (filter has_cands (map (prune a R2 (S k)) g))) ->
+    reach a R2 (S k) p k' g' -> reach a R2 k g k' g'.
+
+(* SubnetOversizeException is raised only when a still-oversize group has reached a range
+   at or below adaptive_stop *)
+Theorem asplit_raise_sound a R2 : forall fuel k g,
+  asplit fuel a R2 k g = Oversize ->
+  exists k' g', reach a R2 k g k' g' /\ (a_max a < length g')%nat /\ at_stop a k' = true.
+Proof.
+  induction fuel as [|fuel IH]; intros k g H; cbn in H.
+  - destruct (length g <=? a_max a)%nat eqn:El; [discriminate|]. apply Nat.leb_gt in El.
+    destruct (at_stop a k) eqn:Es; [|discriminate]. exists k, g. split; [constructor|auto].
+  - destruct (length g <=? a_max a)%nat eqn:El; [discriminate|]. apply Nat.leb_gt in El.
+    destruct (at_stop a k) eqn:Es; [exists k, g; split; [constructor|auto]|].
+    destruct (seq_res_oversize _ _ _ H) as [p [Hin Hov]]. destruct (IH _ _ Hov) as [k' [g' [Hr [Hl Hs]]]].
+    exists k', g'. split; [eapply reach_part; eauto|auto].
+Qed.
+
+(* ... and conversely: when it returns (without running out of fuel), no oversize group met
+   on the way was at or below the stop.  Together: raise exactly when. *)
+Theorem asplit_ok_complete a R2 : forall fuel k g ls,
+  asplit fuel a R2 k g = Ok ls -> ~ In OutOfFuel ls ->
+  forall k' g', reach a R2 k g k' g' -> (a_max a < length g')%nat -> at_stop a k' = false.
+Proof.
+  induction fuel as [|fuel IH]; intros k g ls H Hnf k' g' Hr Hl.
+  - cbn in H. destruct (length g <=? a_max a)%nat eqn:El.
+    + apply Nat.leb_le in El. inversion Hr; subst; lia.
+    + destruct (at_stop a k) eqn:Es; [discriminate|]. inversion H; subst. exfalso. apply Hnf. left; reflexivity.
+  - cbn in H. destruct (length g <=? a_max a)%nat eqn:El.
+    + apply Nat.leb_le in El. inversion Hr; subst; lia.
+    + destruct (at_stop a k) eqn:Es; [discriminate|].
+      inversion Hr as [|? ? p ? ? Hov Hst Hin Hr']; subst; [exact Es|].
+      destruct (seq_res_ok _ _ _ _ H) as [Hall _]. destruct (Hall p Hin) as [lp [Ep Hincl]].
+      eapply IH; [exact Ep|intros Hf; apply Hnf; apply Hincl; exact Hf|exact Hr'|exact Hl].
 Qed.
